@@ -249,7 +249,7 @@ Theorem C16_json_number_int : forall z rest, stop_num rest -> json_number (dec_o
 Proof. exact json_number_int. Qed.
 Print Assumptions C16_json_number_int.
 
-Theorem C16_json_number_float : forall x s rest, fl_norm x -> fl_to_string x = Some s -> stop_num rest ->
+Theorem C16_json_number_float : forall x s rest, fl_norm x -> fl_to_string_dom x = Some s -> stop_num rest ->
   forall j, num_of_fl x = Some j -> json_number (s ++ rest) = Some (j, rest).
 Proof. exact json_number_float. Qed.
 Print Assumptions C16_json_number_float.
